@@ -12,7 +12,7 @@ use verif_harness::dsl::Toks;
 use verif_harness::*;
 
 #[derive(Clone, Debug)]
-enum St { Absent, File(usize, u32, u64), Dir(u64, Vec<String>) }
+enum St { Absent, File(usize, u32, u64), Dir(u64, Vec<String>), Link(usize, u32, u64) }   // Link: the path is a symbolic link to a file (the checkers see the file)
 
 fn content(size: usize, variant: u32) -> Vec<u8> {
   let mut v: Vec<u8> = (0..size).map(|i| ((i * 7 + 3) % 251) as u8).collect();
@@ -31,6 +31,7 @@ fn parse_state(t: &mut Toks) -> St {
   match t.next() {
     "A" => St::Absent,
     "F" => { let size: usize = t.num(); let variant: u32 = t.num(); let m: u64 = t.num(); St::File(size, variant, m) }
+    "L" => { let size: usize = t.num(); let variant: u32 = t.num(); let m: u64 = t.num(); St::Link(size, variant, m) }
     "D" => { let m: u64 = t.num(); let n: usize = t.num(); let mut names = Vec::new(); for _ in 0..n { names.push(t.next().to_string()); } St::Dir(m, names) }
     x => panic!("bad state {}", x),
   }
@@ -46,6 +47,8 @@ fn clear(p: &Path) {
   if let Ok(md) = fs::symlink_metadata(p) {
     if md.is_dir() { fs::remove_dir_all(p).unwrap(); } else { fs::remove_file(p).unwrap(); }
   }
+  let target = p.with_extension("target");
+  if fs::symlink_metadata(&target).is_ok() { fs::remove_file(&target).unwrap(); }
 }
 
 fn set_state(p: &Path, s: &St) {
@@ -56,6 +59,14 @@ fn set_state(p: &Path, s: &St) {
       let mut f = File::create(p).unwrap();
       f.write_all(&content(*size, *variant)).unwrap();
       f.set_modified(time(*m)).unwrap();
+    }
+    St::Link(size, variant, m) => {
+      // the file lives next to the path; the link itself gets the time of its creation (now), which differs from the file's
+      let target = p.with_extension("target");
+      let mut f = File::create(&target).unwrap();
+      f.write_all(&content(*size, *variant)).unwrap();
+      f.set_modified(time(*m)).unwrap();
+      std::os::unix::fs::symlink(&target, p).unwrap();
     }
     St::Dir(m, names) => {
       fs::create_dir(p).unwrap();
@@ -104,7 +115,7 @@ fn probe<C: ResourceChecker<PathBuf>>(tag: &str, c: &C, p: &PathBuf, s1: &St, s2
   let st_reader = c.stamp_reader(p, &mut reader).unwrap();
   // the task reads from the very reader that was stamped: it must see the full content
   let rew = match (s1, reader.as_file()) {
-    (St::File(size, variant, _), Some(f)) => { let mut buf = Vec::new(); f.read_to_end(&mut buf).unwrap(); if buf == content(*size, *variant) { "1" } else { "0" } }
+    (St::File(size, variant, _), Some(f)) | (St::Link(size, variant, _), Some(f)) => { let mut buf = Vec::new(); f.read_to_end(&mut buf).unwrap(); if buf == content(*size, *variant) { "1" } else { "0" } }
     _ => "na",
   };
   writeln!(out, "r {} eq={} rew={}", tag, b(st_path == st_reader), rew).unwrap();
